@@ -232,6 +232,7 @@ def check(F, rep, tier):
                 rep.ok("R18.2", "%s.%s used once" % (fname, kw))
     extend_args_shape(api, rep)
     run_cmd_shape(api, rep)
+    no_decorators(api, rep)
     return core.finish(rep, explanation=EXPL, assumptions=ASSUME, trusted=TRUST)
 
 def same_meaning(opt_id, kw):
@@ -298,6 +299,16 @@ def extend_args_shape(api, rep):
         elif got == want: rep.bad(rule, "return", "_extend_args returns a different list than the one it was given (for %s)" % label, PYFILE)
         else: rep.bad(rule, key, "_extend_args: %s; for value %s it produces %s after the sub-command (expected %s)" % (why, label, got if got is not None else toks, want), PYFILE)
 
+def no_decorators(api, rep):
+    """R18.5: the public functions and the two helpers are plain functions: a decorator (lru_cache, retry, ...) changes what a
+    call returns or when the command runs"""
+    for nme in ("version", "flow", "check", "render", "_extend_args", "_run_zerv_command"):
+        fn = api.funcs.get(nme)
+        if fn is None: continue
+        if fn.decorator_list:
+            rep.bad("R18.5", "decorated:" + nme, "zerv.%s carries decorator(s) %s: the call no longer runs the command line every time (e.g. a cache returns stale output when the environment, the clock or the repository changed)" % (nme, [ast.unparse(d_) if hasattr(ast, "unparse") else ast.dump(d_) for d_ in fn.decorator_list]), PYFILE)
+        else: rep.ok("R18.5", "zerv.%s is undecorated" % nme)
+
 def run_cmd_shape(api, rep):
     """R18.4: subprocess.run([binary, *args], input=stdin, capture_output=True, text=True); on every path a return happens only
     when returncode == 0 and returns result.stdout.strip(); every returncode != 0 path raises.  Paths are enumerated on the AST."""
@@ -347,6 +358,11 @@ def run_cmd_shape(api, rep):
         if isinstance(t, ast.Compare) and len(t.ops) == 1 and is_rc(t.left) and isinstance(t.comparators[0], ast.Constant) and t.comparators[0].value == 0:
             if isinstance(t.ops[0], ast.NotEq): return not truth
             if isinstance(t.ops[0], ast.Eq): return truth
+            # `returncode > 0`: true means non-zero; false leaves zero OR negative (killed by a signal): zero is not established
+            if isinstance(t.ops[0], ast.Gt): return False if truth else "weak"
+            if isinstance(t.ops[0], ast.Lt): return False if truth else "weak"
+            if isinstance(t.ops[0], ast.GtE): return "weak"
+            if isinstance(t.ops[0], ast.LtE): return "weak"
             return "unknown"
         if is_rc(t): return not truth            # `if result.returncode:` is true for non-zero
         if any(is_rc(x) for x in ast.walk(t)): return "unknown"
@@ -359,9 +375,13 @@ def run_cmd_shape(api, rep):
     for conds, (kind, node) in ps:
         zs = [rc_zero(t, tr) for t, tr in conds]
         if "unknown" in zs: undecided.append("a test on returncode this rule does not evaluate"); continue
-        zs = [z for z in zs if z is not None]
+        weak = "weak" in zs
+        zs = [z for z in zs if z is not None and z != "weak"]
         if True in zs and False in zs: continue                    # infeasible
         zero = zs[0] if zs else None
+        if weak and zero is None and kind == "return":
+            n_ret += 1
+            probs.append(("raise-guard", "a path returns after a one-sided test of returncode (> 0 / < 0): a process killed by a signal (negative code) is not treated as a failure")); continue
         if kind == "return":
             n_ret += 1
             if zero is not True: probs.append(("raise-guard", "a path returns without having established returncode == 0 (a failing command does not raise)"))
